@@ -146,10 +146,17 @@ func (l3EM) NewEncoder(w io.Writer) *cbor.Encoder { return nil }
 func (l3EM) EncOptions() cbor.EncOptions          { return cbor.EncOptions{} }
 
 func l3int(v int64) *vItem {
+	it := &vItem{}
+	l3setInt(it, v)
+	return it
+}
+
+func l3setInt(it *vItem, v int64) {
 	if v >= 0 {
-		return &vItem{kind: ikUint, u: uint64(v)}
+		it.kind, it.u = ikUint, uint64(v)
+	} else {
+		it.kind, it.u = ikNint, uint64(-1-v)
 	}
-	return &vItem{kind: ikNint, u: uint64(-1 - v)}
 }
 
 // l3parseTag: (key, omitempty, skip)
@@ -173,46 +180,48 @@ func l3parseTag(tag string) (int64, bool, bool) {
 
 // l3encodeLeaf: the value behind a struct field / list element, by Go type
 func l3encodeLeaf(x interface{}) (*vItem, bool, error) {
+	// (the scalar leaves fill ONE item allocated up front, so that the absent and the present
+	// case of a field return the same object and the two paths can be merged)
 	null := &vItem{kind: ikNull}
 	if x == nil {
 		return null, true, nil // nil interface
 	}
 	switch p := x.(type) {
 	case *string:
-		if p == nil {
-			return null, true, nil
+		if p != nil {
+			null.kind, null.s = ikTstr, *p
 		}
-		return &vItem{kind: ikTstr, s: *p}, false, nil
+		return null, p == nil, nil
 	case *int32:
-		if p == nil {
-			return null, true, nil
+		if p != nil {
+			l3setInt(null, int64(*p))
 		}
-		return l3int(int64(*p)), false, nil
+		return null, p == nil, nil
 	case *int64:
-		if p == nil {
-			return null, true, nil
+		if p != nil {
+			l3setInt(null, *p)
 		}
-		return l3int(*p), false, nil
+		return null, p == nil, nil
 	case *uint16:
-		if p == nil {
-			return null, true, nil
+		if p != nil {
+			null.kind, null.u = ikUint, uint64(*p)
 		}
-		return &vItem{kind: ikUint, u: uint64(*p)}, false, nil
+		return null, p == nil, nil
 	case *uint:
-		if p == nil {
-			return null, true, nil
+		if p != nil {
+			null.kind, null.u = ikUint, uint64(*p)
 		}
-		return &vItem{kind: ikUint, u: uint64(*p)}, false, nil
+		return null, p == nil, nil
 	case *[]byte:
-		if p == nil {
-			return null, true, nil
+		if p != nil {
+			null.kind, null.b = ikBstr, *p
 		}
-		return &vItem{kind: ikBstr, b: *p}, false, nil
+		return null, p == nil, nil
 	case *eat.UEID:
-		if p == nil {
-			return null, true, nil
+		if p != nil {
+			null.kind, null.b = ikBstr, []byte(*p)
 		}
-		return &vItem{kind: ikBstr, b: []byte(*p)}, false, nil
+		return null, p == nil, nil
 	case *eat.Nonce:
 		if p == nil {
 			return null, true, nil
@@ -264,6 +273,24 @@ func l3encodeLeaf(x interface{}) (*vItem, bool, error) {
 		return it, false, nil // a non-nil interface is never "empty"
 	case string:
 		return &vItem{kind: ikTstr, s: p}, p == "", nil
+	case []byte:
+		// a nil slice encodes as null, an empty one as h''; both are "empty" for omitempty
+		if p != nil {
+			null.kind, null.b = ikBstr, p
+		}
+		return null, len(p) == 0, nil
+	case int32:
+		l3setInt(null, int64(p))
+		return null, p == 0, nil
+	case int64:
+		l3setInt(null, p)
+		return null, p == 0, nil
+	case uint16:
+		null.kind, null.u = ikUint, uint64(p)
+		return null, p == 0, nil
+	case uint:
+		null.kind, null.u = ikUint, uint64(p)
+		return null, p == 0, nil
 	}
 	verifL3.err = true
 	return nil, false, errL3
@@ -564,6 +591,42 @@ func l3decodeLeaf(it *vItem, fp interface{}) error {
 			return errL3
 		}
 		*p = prof
+	case *[]byte:
+		if null {
+			*p = nil
+			return nil
+		}
+		b, ok := l3bytes(it)
+		if !ok {
+			return errL3
+		}
+		*p = b
+	case *int32:
+		if null {
+			return nil
+		}
+		v, ok := l3signed(it, -1<<31, 1<<31-1)
+		if !ok {
+			return errL3
+		}
+		*p = int32(v)
+	case *int64:
+		if null {
+			return nil
+		}
+		v, ok := l3signed(it, -1<<63, 1<<63-1)
+		if !ok {
+			return errL3
+		}
+		*p = v
+	case *uint16:
+		if null {
+			return nil
+		}
+		if it.kind != ikUint || it.u > 0xffff {
+			return errL3
+		}
+		*p = uint16(it.u)
 	case *ISwComponents:
 		if *p == nil {
 			verifL3.err = true
